@@ -383,6 +383,9 @@ func (c *Codec) newRecord(t Rtype) (Record, error) {
 }
 
 func (c *Codec) decodeRecord(text []byte) (Record, error) {
+	if len(text) == 0 {
+		return nil, ErrBadRType
+	}
 	t := decodeRtype(text)
 	r, err := c.newRecord(t)
 	if err != nil {
